@@ -267,7 +267,7 @@ def depthPairs : List (Bytes × DVal) → Nat
   | (_, v) :: r => max (depthV v) (depthPairs r)
 end
 
-/-- **T06_inline** (statement): every value built from in-range leaves with `Array::new/push`,
+/-- **T06_inline** (statement; proved as `T06_inline` in `Props/C06Full.lean`): every value built from in-range leaves with `Array::new/push`,
     `InlineTable::new/insert` (or the `FromIterator` impls), nested below the parser's recursion
     limit, prints (`Value::to_string`) as text that `str::parse::<Value>` reads back as the same value,
     same element order, same key order. -/
@@ -328,7 +328,7 @@ def NoEmptyAotItems : List (Bytes × DItem) → Prop
   | (_, i) :: r => NoEmptyAotI i ∧ NoEmptyAotItems r
 end
 
-/-- **T06_doc** (statement, with the hypothesis F10 forces): every document built from in-range
+/-- **T06_doc** (statement, with the hypothesis F10 forces; proved as `T06_doc` in `Props/C06Full.lean`): every document built from in-range
     leaves, nested below the parser's limit and without an empty `ArrayOfTables`, prints as text the
     document parser accepts, and the parsed tree is the built tree: same keys, same values, values in
     build order, sub-tables in build order. -/
